@@ -38,8 +38,10 @@ theorem gen_prematureEOF_eq (r : Gen.RR) :
 theorem gen_reader_offset_discipline : Gen.reopenAtOffset = true ∧ Gen.offsetAccounting = true := by
   first | exact ⟨rfl, rfl⟩ | decide
 
-theorem gen_restore_order_eq : Gen.restoreOrder = restoreSteps := by
-  first | rfl | decide
+/-- the step order extracted from the source is the modelled one — of the pinned tree, or of a tree that
+    removes stale `-wal`/`-shm` before publishing the output (proposed-fixes/C10-foreign-wal.diff) -/
+theorem gen_restore_order_eq : Gen.restoreOrder = restoreSteps ∨ Gen.restoreOrder = restoreStepsFixed := by
+  first | exact Or.inl rfl | exact Or.inr rfl | decide
 
 theorem gen_restore_cleanup_eq : Gen.restoreIntegrityCleanup = integrityCleanup := by
   first | rfl | decide
@@ -132,13 +134,15 @@ theorem runSteps_err {D : Type} (inp : Inputs D) (ss : List Step) (st : State D)
 theorem restore_never_overwrites {D : Type} (inp : Inputs D) (h : inp.outPre = true) :
     (restore inp).1.out = .pre ∧ (restore inp).2 = .error .outputExists
     ∧ (restore inp).1.tmp = (initFs inp).tmp := by
-  simp [restore, restoreSteps, runSteps, exec, initFs, finish, h]
+  simp [restore, restoreWith, restoreSteps, runSteps, exec, initFs, finish, h]
 
 macro "flow_simp" : tactic =>
-  `(tactic| simp_all [restore, restoreSteps, runSteps, exec, initFs, finish])
+  `(tactic| simp_all [restore, restoreWith, restoreSteps, restoreStepsFixed, runSteps, exec, initFs, finish])
 
+set_option maxHeartbeats 1600000 in
 /-- The flow unfolded: state after all steps, as one case analysis (helper for the theorems below). -/
-theorem restore_cases {D : Type} (inp : Inputs D) (hp : inp.decodePanics = false) :
+theorem restore_cases {D : Type} (inp : Inputs D) (hp : inp.decodePanics = false)
+    (hw : inp.walPre = false) (hs : inp.shmPre = false) :
     -- the output path at return is untouched-pre-existing, absent, or complete
     ((restore inp).1.out = .pre ∧ inp.outPre = true
       ∨ (restore inp).1.out = .absent
@@ -158,7 +162,7 @@ theorem restore_cases {D : Type} (inp : Inputs D) (hp : inp.decodePanics = false
     ∧ (∀ d, (restore inp).2 = .ok d →
         (restore inp).1.out = .complete d ∧ inp.decoded = some d ∧ inp.outPre = false ∧ inp.sizesOk = true
         ∧ (restore inp).1.tmp = .absent ∧ (restore inp).1.wal = false ∧ (restore inp).1.shm = false
-        ∧ (inp.integrityOn = true → inp.integrityOk d = true) ∧ ∀ s, s ≠ .integrity → s ≠ .deferRmTmp → inp.fails s = false) := by
+        ∧ (inp.integrityOn = true → inp.integrityOk d = true) ∧ ∀ s, s ≠ .integrity → s ≠ .deferRmTmp → s ≠ .rmSidecars → inp.fails s = false) := by
   cases ht : inp.tmpPre <;> cases hcc : inp.ctxCancelled
   all_goals
     by_cases h0 : inp.outPre = true
@@ -200,8 +204,8 @@ theorem restore_cases {D : Type} (inp : Inputs D) (hp : inp.decodePanics = false
       by_cases h10 : inp.fails .fsyncDir = true
       · flow_simp
       have h10 : inp.fails .fsyncDir = false := by simpa using h10
-      have hall : ∀ s, s ≠ Step.integrity → s ≠ Step.deferRmTmp → inp.fails s = false := by
-        intro s hs hs'; cases s <;> simp_all
+      have hall : ∀ s, s ≠ Step.integrity → s ≠ Step.deferRmTmp → s ≠ Step.rmSidecars → inp.fails s = false := by
+        intro s hs hs' hs''; cases s <;> simp_all
       cases h11 : inp.integrityOn
       · flow_simp
       · cases h12 : inp.fails .integrity
@@ -216,7 +220,7 @@ def RestoreOutputStatesFull : Prop :=
   ∀ (inp : Inputs Unit), (restore inp).1.tmp ≠ .partialW ∧ ∀ d, (restore inp).2 ≠ .error .crash ∧ (restore inp).1.tmp ≠ .complete d
 
 def panicWitness : Inputs Unit :=
-  ⟨false, false, fun _ => false, none, true, false, fun _ => true, false, false, false, true⟩
+  ⟨false, false, fun _ => false, none, true, false, fun _ => true, false, false, false, false, false, id, true⟩
 
 theorem restore_output_states_full_false : ¬ RestoreOutputStatesFull := by
   intro h
@@ -228,14 +232,15 @@ theorem restore_tmp_left_on_decoder_panic :
     (restore panicWitness).1 = ⟨.absent, .partialW, false, false⟩ ∧ (restore panicWitness).2 = .error .crash := by
   constructor
   · decide
-  · simp [restore, restoreSteps, runSteps, exec, initFs, finish, panicWitness]
+  · simp [restore, restoreWith, restoreSteps, runSteps, exec, initFs, finish, panicWitness]
 
 /-- **restore_output_states (partial: hypothesis "the decoder library does not panic").** For every failure pattern, at return the output path is
     untouched-pre-existing, absent, or holds the complete decoded database (the last only after
     the rename; with an error only when the directory fsync failed or the integrity check was
     interrupted by context cancellation); `<output>.tmp` is never left behind by the call; and a
     failed integrity check (context alive) removes output, `-wal` and `-shm`. -/
-theorem restore_output_states_partial {D : Type} (inp : Inputs D) (hp : inp.decodePanics = false) :
+theorem restore_output_states_partial {D : Type} (inp : Inputs D) (hp : inp.decodePanics = false)
+    (hw : inp.walPre = false) (hs : inp.shmPre = false) :
     ((restore inp).1.out = .pre ∧ inp.outPre = true ∨ (restore inp).1.out = .absent
       ∨ ∃ d, (restore inp).1.out = .complete d ∧ inp.decoded = some d)
     ∧ (restore inp).1.out ≠ .partialW
@@ -243,7 +248,7 @@ theorem restore_output_states_partial {D : Type} (inp : Inputs D) (hp : inp.deco
     ∧ (inp.tmpPre = false → (restore inp).1.tmp = .absent)
     ∧ ((restore inp).2 = .error (.step .integrity) → inp.ctxCancelled = false →
         (restore inp).1.out = .absent ∧ (restore inp).1.wal = false ∧ (restore inp).1.shm = false) := by
-  obtain ⟨ho, ht, hi, _⟩ := restore_cases inp hp
+  obtain ⟨ho, ht, hi, _⟩ := restore_cases inp hp hw hs
   refine ⟨?_, ?_, ?_, ?_, ?_, hi⟩
   · rcases ho with h | h | ⟨d, h, hd, _⟩
     · exact Or.inl h
@@ -258,17 +263,113 @@ theorem restore_output_states_partial {D : Type} (inp : Inputs D) (hp : inp.deco
 
 /-- An error before the rename leaves the output path absent (or untouched): the only errors
     after which a complete output exists are a failed directory fsync and a cancelled integrity check. -/
-theorem restore_error_output_absent {D : Type} (inp : Inputs D) (hp : inp.decodePanics = false) (e : Err)
+theorem restore_error_output_absent {D : Type} (inp : Inputs D) (hp : inp.decodePanics = false)
+    (hw : inp.walPre = false) (hs : inp.shmPre = false) (e : Err)
     (he : (restore inp).2 = .error e)
     (h1 : e ≠ .step .fsyncDir) (h2 : e = .step .integrity → inp.ctxCancelled = false) :
     (restore inp).1.out = .absent ∨ ((restore inp).1.out = .pre ∧ inp.outPre = true) := by
-  obtain ⟨ho, _, _, _⟩ := restore_cases inp hp
+  obtain ⟨ho, _, _, _⟩ := restore_cases inp hp hw hs
   rcases ho with h | h | ⟨d, _, _, _, h | h | ⟨h, hc⟩⟩
   · exact Or.inr h
   · exact Or.inl h
   · rw [he] at h; cases h
   · rw [he] at h; cases h; exact absurd rfl h1
   · rw [he] at h; cases h; rw [h2 rfl] at hc; cases hc
+
+/-! ## a valid `-wal` / `-shm` left next to the (absent) output path -/
+
+/-- Full-strength statement: a successful `Restore` publishes exactly the decoded database and leaves
+    no write-ahead log next to it — for every input, including a pre-existing `<output>-wal`.  It is FALSE
+    of the pinned tree (`restore_clean_output_full_false`; KNOWN_FINDINGS
+    `C10/restore-foreign-wal-silent-wrong-output`): nothing looks at `<output>-wal`/`-shm` when `<output>`
+    is absent, SQLite treats that WAL as hot and replays it into the restored database — at the first
+    open, or already inside the post-restore integrity check, which then also checkpoints it into the file. -/
+def RestoreCleanOutputFull : Prop :=
+  ∀ (inp : Inputs Nat), inp.decodePanics = false → ∀ d, (restore inp).2 = .ok d →
+    inp.decoded = some d ∧ (restore inp).1.wal = false
+
+def foreignWalWitness (integrity : Bool) : Inputs Nat :=
+  ⟨false, false, fun _ => false, some 1, true, integrity, fun _ => true, false, false, false, true, true, fun _ => 99, false⟩
+
+/-- without the integrity check the restored file is right but the foreign WAL stays beside it;
+    with the check, `Restore` itself returns the *other* database (99 instead of 1) -/
+theorem foreign_wal_witness :
+    resultOk? (restore (foreignWalWitness false)).2 = some 1 ∧ (restore (foreignWalWitness false)).1.wal = true
+    ∧ resultOk? (restore (foreignWalWitness true)).2 = some 99 := by
+  simp [restore, restoreWith, restoreSteps, runSteps, exec, initFs, finish, foreignWalWitness, resultOk?]
+
+theorem restore_clean_output_full_false : ¬ RestoreCleanOutputFull := by
+  intro h
+  have h1 : (restore (foreignWalWitness false)).2 = .ok 1 := by
+    simp [restore, restoreWith, restoreSteps, runSteps, exec, initFs, finish, foreignWalWitness]
+  have := (h (foreignWalWitness false) rfl 1 h1).2
+  simp [restore, restoreWith, restoreSteps, runSteps, exec, initFs, finish, foreignWalWitness] at this
+
+set_option maxHeartbeats 1600000 in
+/-- With the stale sidecars removed before the output is published (`restoreStepsFixed`,
+    proposed-fixes/C10-foreign-wal.diff) success means the decoded database and nothing beside it —
+    whatever lay next to the output path before. -/
+theorem restore_fixed_ok_clean {D : Type} (inp : Inputs D) (d : D)
+    (h : (restoreWith restoreStepsFixed inp).2 = .ok d) :
+    inp.decoded = some d ∧ (restoreWith restoreStepsFixed inp).1.out = .complete d
+    ∧ (restoreWith restoreStepsFixed inp).1.wal = false ∧ (restoreWith restoreStepsFixed inp).1.shm = false := by
+  cases hpn : inp.decodePanics <;> cases hwp : inp.walPre <;> cases hsp : inp.shmPre <;> cases ht : inp.tmpPre
+  all_goals
+    by_cases h0 : inp.outPre = true
+    · flow_simp
+    have h0 : inp.outPre = false := by simpa using h0
+    by_cases h1 : inp.fails .statOutput = true
+    · flow_simp
+    have h1 : inp.fails .statOutput = false := by simpa using h1
+    by_cases h2 : inp.fails .calcPlan = true
+    · flow_simp
+    have h2 : inp.fails .calcPlan = false := by simpa using h2
+    by_cases h3 : inp.fails .sizeCheck = true
+    · flow_simp
+    have h3 : inp.fails .sizeCheck = false := by simpa using h3
+    by_cases h3' : inp.sizesOk = false
+    · flow_simp
+    have h3' : inp.sizesOk = true := by simpa using h3'
+    by_cases h4 : inp.fails .mkdirParent = true
+    · flow_simp
+    have h4 : inp.fails .mkdirParent = false := by simpa using h4
+    by_cases h5 : inp.fails .createTmp = true
+    · flow_simp
+    have h5 : inp.fails .createTmp = false := by simpa using h5
+    first
+    | (flow_simp; done)
+    | skip
+  all_goals
+    by_cases h6 : inp.fails .decode = true
+    · flow_simp
+    have h6 : inp.fails .decode = false := by simpa using h6
+    cases hd : inp.decoded with
+    | none => flow_simp
+    | some d0 =>
+      by_cases h7 : inp.fails .fsync = true
+      · flow_simp
+      have h7 : inp.fails .fsync = false := by simpa using h7
+      by_cases h8 : inp.fails .close = true
+      · flow_simp
+      have h8 : inp.fails .close = false := by simpa using h8
+      by_cases h8' : inp.fails .rmSidecars = true
+      · flow_simp
+      have h8' : inp.fails .rmSidecars = false := by simpa using h8'
+      by_cases h9 : inp.fails .rename = true
+      · flow_simp
+      have h9 : inp.fails .rename = false := by simpa using h9
+      by_cases h10 : inp.fails .fsyncDir = true
+      · flow_simp
+      have h10 : inp.fails .fsyncDir = false := by simpa using h10
+      cases h11 : inp.integrityOn
+      · flow_simp
+      · cases h12 : inp.fails .integrity
+        · cases h14 : inp.integrityOk d0 <;> cases hcc : inp.ctxCancelled <;> flow_simp
+        · cases hcc : inp.ctxCancelled <;> flow_simp
+
+example : resultOk? (restoreWith restoreStepsFixed (foreignWalWitness true)).2 = some 1
+    ∧ (restoreWith restoreStepsFixed (foreignWalWitness false)).1.wal = false := by
+  simp [restoreWith, restoreStepsFixed, runSteps, exec, initFs, finish, foreignWalWitness, resultOk?]
 
 /-- if the library panics the call never returns success -/
 theorem restore_panic_result {D : Type} (inp : Inputs D) (hp : inp.decodePanics = true) :
@@ -277,11 +378,12 @@ theorem restore_panic_result {D : Type} (inp : Inputs D) (hp : inp.decodePanics 
   cases h0 : inp.outPre <;> cases h1 : inp.fails .statOutput <;> cases h2 : inp.fails .calcPlan <;>
     cases h3 : inp.fails .sizeCheck <;> cases h3' : inp.sizesOk <;> cases h4 : inp.fails .mkdirParent <;>
     cases h5 : inp.fails .createTmp <;>
-    simp [restore, restoreSteps, runSteps, exec, initFs, finish, hp, h0, h1, h2, h3, h3', h4, h5]
+    simp [restore, restoreWith, restoreSteps, runSteps, exec, initFs, finish, hp, h0, h1, h2, h3, h3', h4, h5]
 
 /-- **restore_ok_implies (control flow).** Success means: the data pipeline produced `d`, the output
     path holds exactly `d`, nothing pre-existed, no step failed, `.tmp`/`-wal`/`-shm` are gone. -/
-theorem restore_ok_implies {D : Type} (inp : Inputs D) (d : D) (h : (restore inp).2 = .ok d) :
+theorem restore_ok_implies {D : Type} (inp : Inputs D) (hw : inp.walPre = false) (hs : inp.shmPre = false)
+    (d : D) (h : (restore inp).2 = .ok d) :
     (restore inp).1.out = .complete d ∧ inp.decoded = some d ∧ inp.outPre = false ∧ inp.sizesOk = true
     ∧ (restore inp).1.tmp = .absent
     ∧ (inp.integrityOn = true → inp.integrityOk d = true) := by
@@ -291,7 +393,7 @@ theorem restore_ok_implies {D : Type} (inp : Inputs D) (d : D) (h : (restore inp
     · exact absurd h (by
         have := restore_panic_result inp hpp
         intro h'; rw [h'] at this; exact this d rfl)
-  obtain ⟨_, _, _, hok⟩ := restore_cases inp hp
+  obtain ⟨_, _, _, hok⟩ := restore_cases inp hp hw hs
   obtain ⟨a, b, c, e, f, _, _, g, _⟩ := hok d h
   exact ⟨a, b, c, e, f, g⟩
 
@@ -357,13 +459,14 @@ theorem received_eq_stored (f : FileIn) (hs : headerSize ≤ f.size) (hl : f.sto
     file was received completely and exactly as stored (no matter what the read-fault schedule
     was), passed the checksum test and parsed, and `d = decodeDb (compact (parsed files))`. -/
 theorem restore_ok_data {L D : Type} (k : Codec L D) (files : List FileIn) (base : Inputs D) (d : D)
+    (hw : base.walPre = false) (hs : base.shmPre = false)
     (hlen : ∀ f ∈ files, f.stored.length ≤ f.size)
     (h : (restore (mkInputs k files base)).2 = .ok d) :
     (∀ f ∈ files, received f = some f.stored ∧ k.sumOk f.stored = true ∧ (k.parse f.stored).isSome)
     ∧ ∃ ls l, mapOpt (verifyParse k) (files.map (·.stored)) = some ls ∧ k.compact ls = some l
         ∧ k.decodeDb l = some d
     ∧ (restore (mkInputs k files base)).1.out = .complete d := by
-  obtain ⟨hout, hdec, _, hsz, _, _⟩ := restore_ok_implies _ d h
+  obtain ⟨hout, hdec, _, hsz, _, _⟩ := restore_ok_implies _ (by simpa [mkInputs] using hw) (by simpa [mkInputs] using hs) d h
   have hsz' : ∀ f ∈ files, headerSize ≤ f.size := by
     intro f hf
     have : files.all (fun f => decide (headerSize ≤ f.size)) = true := by simpa [mkInputs] using hsz
@@ -430,19 +533,20 @@ theorem mapOpt_map_congr {α β γ : Type} (f : β → Option γ) (g h : α → 
     the decoded file. -/
 theorem restore_correct_or_error_partial {L D : Type} (k : Codec L D) (files : List FileIn)
     (orig : FileIn → List Nat) (base : Inputs D) (d : D)
+    (hw : base.walPre = false) (hs : base.shmPre = false)
     (hlen : ∀ f ∈ files, f.stored.length ≤ f.size)
     (hdet : ∀ f ∈ files, DetectsCorruption k (orig f) f.stored)
     (h : (restore (mkInputs k files base)).2 = .ok d) :
     ∃ ls l, mapOpt (verifyParse k) (files.map orig) = some ls ∧ k.compact ls = some l ∧ k.decodeDb l = some d
       ∧ (restore (mkInputs k files base)).1.out = .complete d := by
-  obtain ⟨_, ls, l, h1, h2, h3, h4⟩ := restore_ok_data k files base d hlen h
+  obtain ⟨_, ls, l, h1, h2, h3, h4⟩ := restore_ok_data k files base d hw hs hlen h
   exact ⟨ls, l, mapOpt_map_congr (verifyParse k) (·.stored) orig files ls (fun f hf b hb => hdet f hf b hb) h1, h2, h3, h4⟩
 
 /-! non-vacuity of the flow theorems: a concrete codec (identity-like) and inputs. -/
 def demoCodec : Codec (List Nat) (List Nat) :=
   ⟨fun b => some b, fun b => b.length % 2 == 0, fun ls => some ls.flatten, fun l => some l⟩
 def demoBase : Inputs (List Nat) :=
-  ⟨false, false, fun _ => false, none, true, true, fun _ => true, true, true, false, false⟩
+  ⟨false, false, fun _ => false, none, true, true, fun _ => true, true, true, false, false, false, id, false⟩
 def demoFile (bytes : List Nat) (sched : List Dec) : FileIn := ⟨bytes, 100, sched, List.replicate 8 64⟩
 
 example : resultOk? (restore (mkInputs demoCodec [demoFile (List.replicate 100 7) [⟨.ok, 0, .none⟩, ⟨.ok, 40, .other⟩]] demoBase)).2
@@ -456,10 +560,11 @@ example : (restore { demoBase with decoded := some [1], fails := fun s => s == .
 example : (restore { demoBase with decoded := some [1], integrityOk := fun _ => false }).1
     = ⟨.absent, .absent, false, false⟩ := by decide
 theorem integrity_failure_cause_irrelevant {D : Type} (inp : Inputs D) (hp : inp.decodePanics = false)
+    (hw : inp.walPre = false) (hs : inp.shmPre = false)
     (hc : inp.ctxCancelled = false) (h : (restore inp).2 = .error (.step .integrity)) :
     (restore inp).1.out = .absent ∧ (restore inp).1.tmp ≠ .partialW ∧ (restore inp).1.wal = false
     ∧ (restore inp).1.shm = false := by
-  obtain ⟨_, _, h3, _, _, h6⟩ := restore_output_states_partial inp hp
+  obtain ⟨_, _, h3, _, _, h6⟩ := restore_output_states_partial inp hp hw hs
   obtain ⟨a, b, c⟩ := h6 h hc
   exact ⟨a, h3, b, c⟩
 example : (restore { demoBase with decoded := some [1], outPre := true }).1.out = .pre := by decide
